@@ -33,7 +33,9 @@ POOL = [1e-7, 1e22, -0.0, 0.1 + 0.2, 2 ** 53 + 1, 1e300, 123456789012345678, -3,
         '=A9', '=1+1', "'q", 'üñí日本', 'line1\nline2', ' lead', 'trail ', '"quoted"', '{a: 1}',
         '[1, 2]', 'yes', 'no', 'on', 'off', '1_000', '.5', '-', '3.0', '2026-01-01', '12:30',
         '!!python/none', '&a *a', '%TAG', '>folded', '|literal', 'a #c', '\t tab', 'NaN', '.inf',
-        'x' * 300, 'tab\tin', 'back\\slash', 'cr\rlf', ' ']
+        'x' * 300, 'tab\tin', 'back\\slash', 'cr\rlf', ' ',
+        'del\x7fch', 'c1\x9fctl', 'nel\x85here', 'non\ufffechar', 'emoji\U0001F600!',
+        'ls\u2028ps\u2029', '\ufeffbom', 'esc\x1b[0m', 'nul\x00byte']
 
 
 def same(a, b):
@@ -215,7 +217,7 @@ def fidelity_job(arg):
                     got.append(('exc', type(exc).__name__))
         except Exception as exc:              # noqa
             if isinstance(val, str) and val.startswith('='):
-                out['known'].append((f'text {val!r} written with set_value is code after '
+                out['known'].append(('D10', f'text {val!r} written with set_value is code after '
                                      f'reload ({ft}): {type(exc).__name__}', case))
             else:
                 out['violations'].append((f'value {val!r}: {type(exc).__name__}: {str(exc)[-200:]}', case))
@@ -224,14 +226,23 @@ def fidelity_job(arg):
                if w[0] != g[0] or (w[0] == 'ok' and not (
                    same(w[1], g[1]) or (isinstance(w[1], tuple) and w[1] == g[1])))]
         if bad:
-            if isinstance(val, str) and val.startswith('='):
-                out['known'].append((f'text {val!r} written with set_value is code after '
+            if isinstance(val, str) and '\x85' in val and ft in ('yml', 'pkl') and all(
+                    w[0] == g[0] == 'ok' and isinstance(w[1], (str, tuple)) and
+                    json.dumps(w[1]).replace('\\u0085', ' ') == json.dumps(g[1]) for _, w, g in bad):
+                out['known'].append(('D57', f'U+0085 in a text value becomes a space after '
+                                     f'{ft} reload: {bad[0]}', case))
+            elif isinstance(val, str) and any(ord(ch) > 0xFFFF for ch in val) and ft == 'json' \
+                    and all(w[0] == g[0] == 'ok' for _, w, g in bad):
+                out['known'].append(('D56', f'a character beyond U+FFFF comes back as two '
+                                     f'surrogates after json reload: {bad[0]}', case))
+            elif isinstance(val, str) and val.startswith('='):
+                out['known'].append(('D10', f'text {val!r} written with set_value is code after '
                                      f'reload ({ft}): {bad[0]}', case))      # DEV_TextLooksLikeFormula
             else:
                 out['violations'].append((
                     f'value {val!r} saved to {ft}: loaded model differs {bad[:2]}', case))
     out['sample'] = dict(pool_size=len(POOL), first_values=[repr(x) for x in POOL[:8]])
-    out['known'] = out['known'][:2]
+    out['known'] = out['known'][:6]
     return out
 
 
@@ -377,9 +388,51 @@ def lockstep_job(arg):
     return out
 
 
+# ---------------------------------------------------------------- part D
+def hash_job(arg):
+    """the hash of the source workbook (taken when it was compiled) survives"""
+    ft, seed = arg
+    import hashlib
+    from pycel import ExcelCompiler
+    from ruamel.yaml import YAML
+    out = dict(part='hash', ext=ft, cycles=False, tlc=[], violations=[], known=[], notes=[],
+               cases=0, sample=None)
+    d = tlc.new_scratch('hash')
+    cells = {'A1': 1, 'B1': '=A1+1'}
+    for edit_before_save in (False, True):
+        path = os.path.join(d, f'src_{ft}_{int(edit_before_save)}.xlsx')
+        xl.make_wb(cells).save(path)
+        h0 = hashlib.md5(open(path, 'rb').read()).hexdigest()
+        m = ExcelCompiler(path)
+        m.evaluate('S!B1')
+        case = dict(file_type=ft, edited_before_save=edit_before_save)
+        out['cases'] += 1
+        if edit_before_save:
+            xl.make_wb(dict(cells, A1=99)).save(path)       # the workbook changes on disk
+        base = os.path.join(d, f'saved_{ft}_{int(edit_before_save)}_model')
+        m.to_file(base, file_types=(ft,))
+        loaded = ExcelCompiler.from_file(base + '.' + ft)
+        if ft != 'pkl':
+            stored = YAML().load(open(base + '.' + ft).read()).get('excel_hash')
+            if stored != h0:
+                out['violations'].append((
+                    f'the {ft} file carries excel_hash {stored!r}, the workbook compiled had {h0!r}',
+                    case))
+        if loaded.hash_matches != (not edit_before_save) or \
+                m.hash_matches != (not edit_before_save):
+            out['violations'].append((
+                f'hash_matches after reload is {loaded.hash_matches} (original {m.hash_matches}) '
+                f'although the workbook was {"" if edit_before_save else "not "}changed after it '
+                f'was compiled', case))
+        if os.path.abspath(loaded.filename) != os.path.abspath(path):
+            out['violations'].append((f'filename did not survive: {loaded.filename!r}', case))
+    return out
+
+
 def any_job(arg):
     kind, a = arg
-    return dict(protocol=protocol_job, fidelity=fidelity_job, lockstep=lockstep_job)[kind](a)
+    return dict(protocol=protocol_job, fidelity=fidelity_job, lockstep=lockstep_job,
+                hash=hash_job)[kind](a)
 
 
 def run(tier, seed):
@@ -390,6 +443,8 @@ def run(tier, seed):
     for ft in ('yml', 'json', 'pkl'):
         jobs.append(('fidelity', (ft, None, seed)))
     jobs.append(('fidelity', ('yml', cy, seed)))
+    for ft in ('yml', 'json', 'pkl'):
+        jobs.append(('hash', (ft, seed)))
     k = 0
     reps = 1 if tier == 'quick' else 6
     for rep in range(reps):
@@ -421,8 +476,11 @@ def run(tier, seed):
             v.note(n)
         for desc, case in r['violations']:
             v.violation(desc, case)
-        for desc, case in r['known']:
-            v.known_finding('D10' if r['part'] == 'fidelity' else 'D9', desc, case)
+        for k in r['known']:
+            if len(k) == 3:
+                v.known_finding(k[0], k[1], k[2])
+            else:
+                v.known_finding('D9', k[0], k[1])
         if r.get('sample'):
             v.sample(r['sample'], limit=4)
     if not v.extra.get('stale_pickle_reads_seen') and 'D9' in v.findings:
